@@ -10,6 +10,7 @@ def run(ctx):
     fam = "queue"
     ctx.tlc_mc(fam, "QueueWake", "QueueWake_MC.cfg", workers=4, coverage=ctx.thorough)
     ctx.tlc_mc(fam, "QueueWake", "QueueWake_MC_bug.cfg", workers=1, expect_violation="NoStranded")
+    ctx.tlc_mc(fam, "QueueWake", "QueueWake_MC_bug_sigfirst.cfg", workers=1, expect_violation="NoStranded")
     ctx.tlc_mc(fam, "QueueWake", "QueueWake_MC_live.cfg", workers=4)
     ctx.tlc_mc(fam, "PriWake", "PriWake_MC.cfg", workers=4, coverage=ctx.thorough)
     ctx.tlc_mc(fam, "PriWake", "PriWake_MC_bug.cfg", workers=1, expect_violation="WakeInv")
@@ -47,6 +48,12 @@ def run(ctx):
     ctx.assumptions += [
         "global quiescence is read from runtime.Stack wait reasons (internal/qx); 'parked' = a consumer whose Pop has not returned at global quiescence (today: sync.Cond.Wait)",
         "which notified consumer runs first is left open: TLC searches the order of the Wake steps",
+        "burst steps: one goroutine issues 2-5 calls (adds, close) back to back with consumers parked, "
+        "quiescence only afterwards; the trace spec applies the calls one by one with Wake steps in "
+        "between in any order; priq: pushn/popn (k calls back to back) and gateall (all gated calls "
+        "released together)",
+        "what is issued is decided by the harness's own count model of the property (qa.Model), never by "
+        "the implementation's replies",
         "priq mid-call states are reached through verifGate (build tag verif) before tyrSignal in Push/Pop; "
         "item order is not part of this property (C12)",
         "stress runs are judged at their quiescent end only (nobody left parked, items conserved; "
@@ -54,8 +61,9 @@ def run(ctx):
     ]
     return ctx.finish(
         rule="plans = TLC simulation of QueueWake.tla (external calls in stable states, 4 consumers, 5 queue "
-             "types) and PriWake.tla (4 procs, gates); seeded random schedules on all types; a trace is one "
-             "queue lifetime ending with close + drain",
+             "types; every second plan with its runs of adds/close fused into bursts) and PriWake.tla (4 procs, "
+             "gates, bursts); seeded random schedules and 'c parked consumers + burst of k adds' scenarios on all "
+             "types; a trace is one queue lifetime ending with close + drain",
         explanation="after every call and global quiescence: who returned with which reply and who sleeps in "
                     "sync.Cond.Wait must be a stable state of QueueWake.tla; priq: len(WaitCh()), Len() and "
                     "gate positions must equal PriWake.tla's successor state, on which WakeInv is checked")
